@@ -397,6 +397,34 @@ class Run:
     def try_rule(self, fn, *args):
         """evaluate one rule function; if its analysis cannot proceed (anchor not found, floor missed) the rule is recorded as
         not evaluated instead of aborting the whole property"""
+        n0, k0, f0 = len(self.obs), len(self.skipped), len(self.floors)
+        r = self._try_once(fn, *args)
+        # Second reading.  A rule about an orchestrator of the pipeline (link_cores) that does not hold - or cannot be evaluated - on the
+        # function as written is evaluated once more on the function with the private helpers that only it calls put back in place
+        # (lib.syn.INLINE_ORCHESTRATORS): splitting an orchestrator into phases is a refactoring, and both readings are readings of the
+        # same program.  The second reading replaces the first only if everything the rule asks holds in it.
+        from . import syn as _syn
+        bad = [o for o in self.obs[n0:] if not o.ok]   # (a recorded finding among them is reproduced in either reading)
+        touched = any(nm in (o.key + " " + (o.detail or "")) for o in bad for nm in _syn.ORCHESTRATORS) or \
+            any(nm in sk["reason"] for sk in self.skipped[k0:] for nm in _syn.ORCHESTRATORS)
+        if touched and not _syn.INLINE_ORCHESTRATORS:
+            first = (self.obs[n0:], self.skipped[k0:], self.floors[f0:])
+            del self.obs[n0:], self.skipped[k0:], self.floors[f0:]
+            _syn.INLINE_ORCHESTRATORS = True
+            try:
+                r2 = self._try_once(fn, *args)
+            finally:
+                _syn.INLINE_ORCHESTRATORS = False
+            known = {canon_key(k["key"]) for k in load_known() if k.get("status") == "known"}
+            if any(not o.ok and canon_key(o.key) not in known for o in self.obs[n0:]) or len(self.skipped) > k0:
+                del self.obs[n0:], self.skipped[k0:], self.floors[f0:]
+                self.obs.extend(first[0]); self.skipped.extend(first[1]); self.floors.extend(first[2])
+            else:
+                self.notes.append(f"{getattr(fn, '__name__', fn)}: holds on the orchestrator read with its carved-out phases in place (second reading)")
+                r = r2
+        return r
+
+    def _try_once(self, fn, *args):
         try:
             return fn(self, *args)
         except AnalysisIncomplete as e:
